@@ -76,7 +76,7 @@ def strip_comment(line):
     if i >= 0:
         # make sure we are not inside a string literal: cheap check on quote parity
         head = line[:i]
-        if head.count('"') % 2 == 0 or _quotes_balanced(head):
+        if (head.count('"') % 2 == 0 and "'\"'" not in head) or _quotes_balanced(head):
             return head.rstrip()
         # search later occurrences
         j = i
@@ -97,6 +97,8 @@ def _quotes_balanced(t):
             if c == '\\': i += 2; continue
             if c == '"': inq = False
         elif c == '"':
+            if t[i - 1:i + 2] == "'\"'":
+                i += 1; continue     # the char literal '"'
             inq = True
         i += 1
     return not inq
